@@ -161,6 +161,15 @@ func callerTable(d OptDef) []string {
 	return t
 }
 
+func sortedKeys(m map[string][]string) []string {
+	ks := make([]string, 0, len(m))
+	for k := range m {
+		ks = append(ks, k)
+	}
+	sort.Strings(ks)
+	return ks
+}
+
 func forEachOpt(c *CmdDef, f func(d OptDef)) {
 	for _, d := range c.Opts {
 		f(d)
@@ -206,6 +215,15 @@ func build(o *getoptions.GetOpt, c *CmdDef, path string, ran *string, nodes *[]n
 		o.ArgCompletionsFns(func(target string, prev []string, partial string) []string {
 			if callLog != nil {
 				fmt.Fprintf(callLog, "[argfn %s#%d target=%s prev=%q partial=%q]", p, k, target, prev, partial)
+			}
+			if c.ArgCompOwned && k == 0 && callerTables != nil {
+				// the program answers from a table of its own, the same slice every time
+				t, ok := callerTables["argfn "+p]
+				if !ok {
+					t = []string{"solo"}
+					callerTables["argfn "+p] = t
+				}
+				return t
 			}
 			if c.ArgCompPanic && k == c.ArgCompFns-1 {
 				var m map[string]int
@@ -351,7 +369,25 @@ func observeArgv(sc *Scenario, ord Order, st *obsStats, shared []string) (out st
 				fmt.Fprintf(&b, "caller-table %s=%q\n", d.Name, callerTable(d))
 			}
 		})
+		var ownedTables func(c *CmdDef, path string)
+		ownedTables = func(c *CmdDef, path string) {
+			if c.ArgCompOwned && c.ArgCompFns > 0 {
+				if _, ok := callerTables["argfn "+path]; !ok {
+					callerTables["argfn "+path] = []string{"solo"}
+				}
+			}
+			for i := range c.Subs {
+				ownedTables(&c.Subs[i], path+"/"+c.Subs[i].Name)
+			}
+		}
+		ownedTables(&sc.Root, "prog")
+		for _, k := range sortedKeys(callerTables) {
+			if strings.HasPrefix(k, "argfn ") {
+				fmt.Fprintf(&b, "caller-table %s=%q\n", k, callerTables[k])
+			}
+		}
 		parts := map[string]*strings.Builder{}
+		prevMode := ""
 		defer func() {
 			for _, mode := range []string{"parse", "bash", "zsh", "bare"} {
 				if pb := parts[mode]; pb != nil {
@@ -375,19 +411,26 @@ func observeArgv(sc *Scenario, ord Order, st *obsStats, shared []string) (out st
 			oldCW := getoptions.VerifSetCompletionWriter(&cw)
 			exit := -1
 			oldExit := getoptions.VerifSetExit(func(c int) { exit = c })
-			os.Unsetenv("COMP_LINE")
-			os.Unsetenv("ZSHELL")
-			if mode == "bash" || mode == "zsh" {
-				// the environment is a set: which of the two was exported first is not part of it
-				zfirst := mode == "zsh" && (ord.Base == "desc" || (ord.Base == "shuffle" && ord.Seed%2 == 1))
-				if zfirst {
-					os.Setenv("ZSHELL", "true")
-				}
-				os.Setenv("COMP_LINE", sc.CompLine)
-				if mode == "zsh" && !zfirst {
-					os.Setenv("ZSHELL", "true")
+			// the environment is a set: which of the two was exported first is not part of it
+			zfirst := mode == "zsh" && (ord.Base == "desc" || (ord.Base == "shuffle" && ord.Seed%2 == 1))
+			if mode == "zsh" && prevMode == "bash" && !zfirst {
+				// the request of the previous step is still exported (the program did not touch its
+				// environment, and the library has no business doing so): only the shell flavour is added
+				os.Setenv("ZSHELL", "true")
+			} else {
+				os.Unsetenv("COMP_LINE")
+				os.Unsetenv("ZSHELL")
+				if mode == "bash" || mode == "zsh" {
+					if zfirst {
+						os.Setenv("ZSHELL", "true")
+					}
+					os.Setenv("COMP_LINE", sc.CompLine)
+					if mode == "zsh" && !zfirst {
+						os.Setenv("ZSHELL", "true")
+					}
 				}
 			}
+			prevMode = mode
 			func() {
 				defer func() {
 					// a panic (the library's, or a callback of the program) ends this request only
@@ -560,6 +603,12 @@ func observeArgv(sc *Scenario, ord Order, st *obsStats, shared []string) (out st
 						if h2 := n.opt.Help(); h2 != h {
 							fmt.Fprintf(pb, "NONIDEMPOTENT help %s: second rendering differs: %s\n", n.path, firstDiff(h, h2))
 						}
+					}
+				}
+				if mode == "parse" {
+					// the remaining arguments belong to the program too: it consumes them in place
+					for i := range rem {
+						rem[i] = "consumed by the program"
 					}
 				}
 				fmt.Fprintf(pb, "%s.writer=%q\n", mode, w.String())
